@@ -338,9 +338,8 @@ def step (line : String) : String :=
     match parsePolicy pol, parseColor custom, parseBg bg, parseBool cdark, (splitList grays ";").mapM parsePair,
           parseBool exp, (splitList layers ";").mapM parseLayer, (splitList blocks "!").mapM parseBlock, parseEnts ents with
     | some pol, some cu, some bg, some cd, some gs, some ex, some ls, some bs, some es =>
-      let fg := layoutFg bg (layout = "msp") cd
       let gray : Nat → Nat := fun rgb => match gs.find? (fun p => p.1 = rgb) with | some p => p.2 | none => 0
-      match drawLayout ⟨bs⟩ (mkCtx fg Gen.RenderTables.aciRgb ex ls) es with
+      match drawLayout ⟨bs⟩ (mkCtxBg bg (layout = "msp") cd Gen.RenderTables.aciRgb ex ls) es with
       | .ok (ps, st) =>
         if st = State.init then showPrims (backendStage pol cu gray ps) else "ok-unbalanced"
       | .error e => showErr e
